@@ -127,7 +127,7 @@ func c19Scenario(c *wk.Ctx, idx int64, r *rand.Rand) (nontrivial string, viol bo
 		panic(fmt.Sprintf("HARNESS BUG: %d waiters left from the previous scenario", w))
 	}
 	t0 := time.Now()
-	immediate := 0
+	immediate, dupInside := 0, 0
 	var wg sync.WaitGroup
 	var mu sync.Mutex
 	// start the pings one after the other so that an injected send error hits the intended one
@@ -148,8 +148,22 @@ func c19Scenario(c *wk.Ctx, idx int64, r *rand.Rand) (nontrivial string, viol bo
 					off = d.OffIP6 + 40
 				}
 				if icmp := f.Data[off:]; icmp[0] == 8 || icmp[0] == 128 {
-					s.Parse(echoFrame(nic, p, 0, 129, uint16(icmp[4])<<8|uint16(icmp[5]), false))
+					reply := echoFrame(nic, p, 0, 129, uint16(icmp[4])<<8|uint16(icmp[5]), false)
+					n := 1
+					for _, x := range p.extras {
+						if x.kind == "duplicate" {
+							n = 2 // the duplicate arrives before the pinger had any chance to run: it is still inside its write
+						}
+					}
+					for k := 0; k < n; k++ {
+						if c.Guard("C19", func() any { return cs() }, func() { s.Parse(append([]byte(nil), reply...)) }) != nil {
+							viol = true
+						}
+					}
 					immediate++
+					if n == 2 {
+						dupInside++
+					}
 				}
 			})
 		}
@@ -170,6 +184,7 @@ func c19Scenario(c *wk.Ctx, idx int64, r *rand.Rand) (nontrivial string, viol bo
 	}
 	rec.AfterWrite(nil)
 	c.Obs("replies_inside_write", int64(immediate))
+	c.Obs("duplicate_replies_inside_write", int64(dupInside))
 	// identifiers from the echo requests on the wire, matched by destination
 	ids := map[uint16]int{}
 	for _, f := range rec.Take() {
